@@ -3,6 +3,7 @@
 //! TLA+ trace specifications validate.
 
 mod driver;
+mod golden;
 mod util;
 mod world;
 
@@ -49,6 +50,21 @@ fn main() {
             driver::random(&p, seed, from, to, sink).map(|n| {
                 eprintln!("ran {n} histories");
             })
+        }
+        "golden-gen" => {
+            let out = arg_val(&args, "--out").expect("--out");
+            let v = golden::generate();
+            std::fs::write(&out, serde_json::to_string(&v).unwrap()).map_err(|e| e.to_string())
+        }
+        "golden-check" => {
+            let inp = arg_val(&args, "--in").expect("--in");
+            std::fs::read_to_string(&inp)
+                .map_err(|e| e.to_string())
+                .and_then(|t| serde_json::from_str::<serde_json::Value>(&t).map_err(|e| e.to_string()))
+                .map(|g| {
+                    let (n, fails) = golden::check(&g);
+                    println!("{}", serde_json::json!({"checks": n, "failures": fails}));
+                })
         }
         "features" => {
             println!("{}", if cfg!(feature = "cfg-alt") { "alt" } else { "default" });
